@@ -150,6 +150,7 @@ def record_run(conf: dict, n_total=32, seed=0, label="", posterior_flags=None, s
     if sampler is None:
         sampler, c = build_sampler(conf, rec, out_dir=out_dir)
         rec.attach(sampler)
+    rec.requested_n_total = int(n_total)
     with psrun.hooks_on(rec):
         try:
             sampler.run(n_total=n_total, progress=False, save_every=save_every, resume_state_path=resume)
